@@ -276,10 +276,32 @@ MUTS = [
      "                log.debug('Defining bitmap for reuse')\n                state.most_recent_bitmap_is_for_reuse = False"),
     ('G5', 'preserve', 'C07', K, "                state.most_recent_bitmap_is_for_reuse = False\n                state.bitmap_definition_state = BITMAP_WAITING_FOR_BIT\n                state.n_031031 = 0",
      "                state.most_recent_bitmap_is_for_reuse = False\n                state.n_031031 = 0\n                state.bitmap_definition_state = BITMAP_WAITING_FOR_BIT"),
+    # ---- stage H: the end of Decoder.process_section (fragment process_section_finish, C04_src_finish_section_eq) ----
+    ('H1', 'change', 'C04', G, "            elif nbits_unread < 0:\n", "            elif nbits_unread < -8:\n"),
+    ('H2', 'change', 'C04', G, "                bit_reader.read_bin(nbits_unread)\n", "                pass\n"),
+    ('H3', 'change', 'C04', G, "            nbits_unread = section.section_length.value * NBITS_PER_BYTE - nbits_read\n",
+     "            nbits_unread = section.section_length.value * NBITS_PER_BYTE - nbits_read - 1\n"),
+    ('H4', 'change', 'C04', G, "            if nbits_unread > 0:\n", "            if nbits_unread > 8:\n"),
+    ('H5', 'change', 'C12', G, "            elif nbits_unread < 0:\n                raise PyBufrKitError(", "            elif nbits_unread < 0:\n                raise ValueError("),
+    ('H6', 'change', 'C04', G, "        return bit_reader.get_pos() - section.get_metadata(BITPOS_START)\n", "        return bit_reader.get_pos()\n"),
+    ('H7', 'change', 'C04', G, "        if 'section_length' in section:\n            nbits_read", "        if 'length' in section:\n            nbits_read"),
+    ('H8', 'change', 'C04', G, "                bit_reader.read_bin(nbits_unread)\n", "                bit_reader.read_bin(nbits_unread - nbits_unread % 16)\n"),
+    ('H9', 'change', 'C04', G, "            nbits_read = bit_reader.get_pos() - section.get_metadata(BITPOS_START)\n", "            nbits_read = bit_reader.get_pos()\n"),
+    ('H10', 'change', 'C04', G, "            elif nbits_unread < 0:\n                raise PyBufrKitError(", "            elif nbits_unread < 0 and False:\n                raise PyBufrKitError("),
+    ('H11', 'unsupported', 'C04', G, "                bit_reader.read_bin(nbits_unread)\n", "                bit_reader.skip(nbits_unread)\n"),
+    ('H12', 'preserve', 'C04', G, "                log.debug('Skipping {} bits to end of the section'.format(nbits_unread))\n", "                log.debug('Skipping {} bits of padding'.format(nbits_unread))\n"),
+    ('H13', 'preserve', 'C04', G, "            if nbits_unread > 0:\n", "            if 0 < nbits_unread:\n"),
+    ('H14', 'preserve', 'C04', G, '@renamefinish nbits_unread n_unread', ''),
+    ('H15', 'preserve', 'C04', G, "            elif nbits_unread < 0:\n                raise PyBufrKitError(", "            elif 0 > nbits_unread:\n                raise PyBufrKitError("),
 ]
 
 
 def apply(text, a, b):
+    if a.startswith('@renamefinish '):
+        _, old, new = a.split()
+        i = text.index("        if 'section_length' in section:\n            nbits_read")
+        j = text.index('    def process_unexpanded_descriptors')
+        return text[:i] + re.sub(r'\b%s\b' % old, new, text[i:j]) + text[j:]
     if a.startswith('@renamegen '):
         _, old, new = a.split()
         i = text.index('def generate_bufr_message(')
